@@ -228,7 +228,8 @@ static void mon_store(void* addr, int order) {
 static void mon_fence(int order) { if (order == mo_seq_cst) mon_unfenced_era_store = 0; }   /* ... and must be followed by a seq_cst fence */
 
 /* ---------------- invariant Inv_K ---------------- */
-unsigned char g_pos[NSLOT], g_height;        /* ghost witness of the free chain: height of slot i above the chain end (0 = not on the chain), height of the head */
+unsigned char g_pos[NSLOT], g_height, g_at[NSLOT + 1];   /* g_at[h]: index of the free slot of height h (makes heights pairwise different without pairwise comparisons) */
+static void witness_set(int i, unsigned char h) { g_pos[i] = h; for (int k = 1; k <= NSLOT; k++) if (h == k) g_at[k] = (unsigned char)i; }        /* ghost witness of the free chain: height of slot i above the chain end (0 = not on the chain), height of the head */
 /* Carry the witness over a step.  Pushes and pops happen at the head only: a slot that stays free keeps its height; a slot taken from the
  * chain was the head; a slot that became free is the new head (it inherits the height of a slot taken in the same step).  Anything else
  * (two slots freed at once: initialize, a new block) gets its witness from the harness; otherwise the check below fails. */
@@ -243,7 +244,7 @@ static void witness_sync(void) {
   if (npop == 1 && npush == 0) g_height = g_height - 1;
   if (npop == 0 && npush == 1) g_height = g_height + 1;
   if (npush == 1 && npop <= 1)
-    for (int i = 0; i < NSLOT; i++) if (g_pos[i] == 0 && slot_live(i) && SLOT(i)->guard_cnt == 0) g_pos[i] = npop ? popped_h : g_height;
+    for (int i = 0; i < NSLOT; i++) if (g_pos[i] == 0 && slot_live(i) && SLOT(i)->guard_cnt == 0) witness_set(i, npop ? popped_h : g_height);
 }
 static era_t slot_era(const struct hazard_era* s) { return (era_t)(s->value.w >> 1); }
 struct inv_res { _Bool count_ok, rest_ok; };
@@ -259,14 +260,14 @@ static struct inv_res inv_eval(const struct guard* a, const struct guard* b) {
     if ((a && a->he) || (b && b->he)) r.count_ok = 0;
     for (int i = 0; i < NSLOT; i++) if (slot_live(i)) { if (g_others[i] != 0 || SLOT(i)->guard_cnt != 0) r.count_ok = 0; }
     if (g_cb.last_hazard_era != 0) r.rest_ok = 0;
-    for (int i = 0; i < NSLOT; i++) g_pos[i] = i < XV_K ? (unsigned char)(XV_K - i) : 0;   /* witness for the chain initialize will build on first use */
+    for (int i = 0; i < NSLOT; i++) witness_set(i, i < XV_K ? (unsigned char)(XV_K - i) : 0);   /* witness for the chain initialize will build on first use */
     g_height = XV_K;
     return r;
   }
   if (g_td.control_block != &g_cb) { r.rest_ok = 0; return r; }
   /* the free chain: duplicate-free, inside the slot universe, null-terminated, and it contains exactly the slots nobody counts in.
    * Decided with the ghost witness (g_pos, g_height) instead of walking the chain: the head has height g_height, a slot of height 1
-   * links to null, a slot of height h > 1 links to a free slot of height h-1, free slots have pairwise different heights in 1..g_height.
+   * links to null, a slot of height h > 1 links to a free slot of height h-1, free slots have pairwise different heights in 1..g_height (g_at is a left inverse of g_pos).
    * Then the chain from hint visits g_height free slots of heights g_height..1 and ends, and no other free slot can exist. */
   if (!g_no_sync) witness_sync();
   _Bool on[NSLOT];
@@ -278,7 +279,7 @@ static struct inv_res inv_eval(const struct guard* a, const struct guard* b) {
     const struct hazard_era* l = SLOT(i)->value.lp;
     if (g_pos[i] == 1) { if (l != 0) r.rest_ok = 0; }
     else { _Bool ok = 0; FOR_SLOT(j, l) ok = on[j] && g_pos[j] + 1 == g_pos[i]; if (!ok) r.rest_ok = 0; }
-    for (int j = i + 1; j < NSLOT; j++) if (on[j] && g_pos[j] == g_pos[i]) r.rest_ok = 0;
+    { _Bool ok = 0; for (int h = 1; h <= NSLOT; h++) if (g_pos[i] == h) ok = g_at[h] == i; if (!ok) r.rest_ok = 0; }    /* heights are injective */
   }
   for (int i = 0; i < NSLOT; i++) if (slot_live(i)) {
     const struct hazard_era* s = SLOT(i);
@@ -368,7 +369,7 @@ static void havoc_state(const struct guard* a, const struct guard* b) {
     in_others[i] = nondet_u64(); in_era[i] = nondet_u64(); in_link[i] = nondet_uint(); in_mark[i] = nondet_bool();
     XV_ASSUME(in_era[i] < ERA_MAX && in_others[i] < CNT_MAX);   /* fewer than 2^62 guard objects */
     g_others[i] = slot_live(i) ? in_others[i] : 0;
-    SLOT(i)->guard_cnt = nondet_u64(); g_pos[i] = nondet_uchar(); g_height = nondet_uchar();
+    SLOT(i)->guard_cnt = nondet_u64(); g_pos[i] = nondet_uchar(); g_at[i + 1] = nondet_uchar(); g_height = nondet_uchar();
     SLOT(i)->value.mark = in_mark[i];
     SLOT(i)->value.lp = slot_of(in_link[i]);
     SLOT(i)->value.w = in_mark[i] ? nondet_uptr() : (uintptr_t)(in_era[i] << 1);
@@ -398,7 +399,7 @@ static void chk_exit(const struct guard* a, const struct guard* b) {
 #define XV_HAVOC_ACQ acq_havoc(); XV_ASSUME(xv_clock < CNT_MAX && mon_src_loads < CNT_MAX && mon_era_loads < CNT_MAX); self->he = any_slot_or_null(); self->ptr = nondet_uptr(); prev_era = nondet_u64()
 static void acq_havoc(void) {
   for (int i = 0; i < NSLOT; i++) {
-    SLOT(i)->guard_cnt = nondet_u64(); SLOT(i)->value.mark = nondet_bool(); SLOT(i)->value.lp = any_slot_or_null(); SLOT(i)->value.w = nondet_uptr(); g_pos[i] = nondet_uchar();
+    SLOT(i)->guard_cnt = nondet_u64(); SLOT(i)->value.mark = nondet_bool(); SLOT(i)->value.lp = any_slot_or_null(); SLOT(i)->value.w = nondet_uptr(); g_pos[i] = nondet_uchar(); g_at[i + 1] = nondet_uchar();
   }
   g_height = nondet_uchar();
   g_cb.last_hazard_era = any_slot_or_null(); g_cb.last_era = nondet_u64();
@@ -523,9 +524,9 @@ static void h_initialize(void) {
 #endif
     g_height = h;
     for (int i = 0; i < NSLOT; i++) g_pos[i] = 0;
-    for (int i = 0; i < XV_K; i++) g_pos[i] = h--;
+    for (int i = 0; i < XV_K; i++) witness_set(i, h--);
 #ifdef XV_DYN
-    for (int b = 1; b >= 0; b--) if ((int)g_nblk > b) for (int i = 0; i < XV_K; i++) g_pos[(1 + b) * XV_K + i] = h--;
+    for (int b = 1; b >= 0; b--) if ((int)g_nblk > b) for (int i = 0; i < XV_K; i++) witness_set((1 + b) * XV_K + i, h--);
 #endif
   }
   _Bool ok = 1; const struct hazard_era* p = g_td.hint; unsigned n = 0;
@@ -584,7 +585,7 @@ static void h_dyn_alloc(void) {
     XV_OBL("he.dyn.new_block", r == &g_new.slots[0] && r->guard_cnt == 1 && g_td.hint == (hes > 1 ? &g_new.slots[1] : (struct hazard_era*)0));
     _Bool old_same = 1; for (int i = 0; i < 3 * XV_K; i++) if (slot_live(i)) old_same = old_same && slot_same(i);
     XV_OBL("he.dyn.new_block", old_same);
-    for (int j = 0; j < XV_NEWMAX; j++) g_pos[3 * XV_K + j] = (size_t)j < hes && j > 0 ? (unsigned char)(hes - j) : 0;    /* witness for the chain of the new block */
+    for (int j = 0; j < XV_NEWMAX; j++) witness_set(3 * XV_K + j, (size_t)j < hes && j > 0 ? (unsigned char)(hes - j) : 0);    /* witness for the chain of the new block */
     g_height = (unsigned char)(hes - 1);
     XV_CANARY("dyn.new_block");
   } else {
